@@ -54,6 +54,31 @@ def rule_undo_on_all_exits(em, rep, rid):
             rep.ok(rid, key, 'all exits pass the unbind; %d suspension point(s) inside the bound region' % ny, f.loc(n.stmt))
 
 
+def _possible_strings(em, f, a):
+    """the strings a name argument can be: a literal, or a loop variable over a literal/module-constant tuple of literals"""
+    if isinstance(a, ast.Constant):
+        return {a.value}
+    if isinstance(a, ast.Name):
+        loops = [s for s in own_nodes(f.node) if isinstance(s, (ast.For, ast.comprehension)) and is_name(s.target, a.id)]
+        others = [s for s in own_nodes(f.node) if isinstance(s, (ast.Assign, ast.AugAssign)) and any(
+            is_name(x, a.id) and isinstance(x.ctx, ast.Store) for t in (s.targets if isinstance(s, ast.Assign) else [s.target]) for x in ast.walk(t))]
+        if not loops or others or a.id in f.all_params:
+            return None
+        out = set()
+        for l in loops:
+            it = l.iter
+            if isinstance(it, ast.Name):
+                r = em.repo.resolve_name(f, it.id)
+                if not (r and r[0] == 'var' and len(r[1].assign_nodes.get(it.id, [])) == 1):
+                    return None
+                it = r[2]
+            if not (isinstance(it, (ast.Tuple, ast.List)) and all(isinstance(x, ast.Constant) for x in it.elts)):
+                return None
+            out |= {x.value for x in it.elts}
+        return out
+    return None
+
+
 def rule_bind_ownership(em, rep, rid):
     """B1: only the variable class writes the binding cell; bind only when unbound, to a
     dereferenced value, and never to itself."""
@@ -78,8 +103,8 @@ def rule_bind_ownership(em, rep, rid):
                     rep.violation(rid + 'a', key, 'the binding cell of a variable is written outside %s (bindings made '
                                   'here are not undone by the binder\'s finally)' % var.qname, f.loc(n))
             if isinstance(n, ast.Call) and is_name(n.func, 'setattr') and len(n.args) >= 2:
-                a = n.args[1]
-                if not isinstance(a, ast.Constant) or a.value in ('_is_bound', '_value'):
+                names = _possible_strings(em, f, n.args[1])
+                if names is None or names & {'_is_bound', '_value'}:
                     rep.violation(rid + 'a', '%s:%s' % (f.qname, norm(n)), 'setattr may write the binding cell', f.loc(n))
     rep.minimum('stores to the binding cell', count, 3)
     binders = {f for f, _, _ in bind_sites(em)}
